@@ -14,7 +14,7 @@
    sockets (a blocked Read/Write is released only by closing the socket),
    pion/dtls internals, real-time bounds. *)
 From Coq Require Import List Bool String Arith.
-From GoCoap Require Import Liveness.Model Liveness.Close Liveness.Spec Liveness.Proofs Gen.WakeSets.
+From GoCoap Require Import Liveness.Model Liveness.Close Liveness.Spec Liveness.Proofs Liveness.Stall Liveness.StallProofs Gen.WakeSets.
 Import ListNotations.
 Local Open Scope list_scope.
 
@@ -125,6 +125,110 @@ Theorem C09_closed_stays_closed : forall k sched x,
 Proof. exact closed_stays_closed. Qed.
 Print Assumptions C09_closed_stays_closed.
 
+(* ---------- Done => connection context cancelled ----------
+   Completing Done and running the callbacks is what an application sees of a closed connection; what wakes the
+   blocked operations (C09_returns: [closed]) is the cancellation of the connection context.  In the close protocol,
+   for ARBITRARY thread programs in which every completion of Done is preceded in the same thread by s.cancel()
+   (guarded), under every schedule and at every moment: Done completed => connection context cancelled. *)
+Theorem C09_done_implies_cancelled : forall k cbs ts0 sched,
+  Forall (fun p => guarded p = true) ts0 ->
+  let x := exec k (init_st cbs, ts0) sched in
+  c_done (fst x) = true -> c_cancelled (fst x) = true.
+Proof. exact done_implies_cancelled. Qed.
+Print Assumptions C09_done_implies_cancelled.
+
+(* the library's sessions: any number of Close calls, Run exits / close-function callers and AddOnClose calls,
+   whether or not the session owns the socket (the Run exit calls Close unconditionally) *)
+Theorem C09_session_done_implies_cancelled : forall k cs cbs nclose nshut adds sched,
+  let x := exec k (init_st cbs, session_threads cs nclose nshut adds) sched in
+  c_done (fst x) = true -> c_cancelled (fst x) = true.
+Proof. exact session_done_implies_cancelled. Qed.
+Print Assumptions C09_session_done_implies_cancelled.
+
+(* the hypothesis is needed: a Run exit that only shuts down (Close skipped because the socket belongs to the
+   caller) completes Done, runs the callbacks and leaves the connection context alive *)
+Theorem C09_run_exit_without_close_refuted :
+  exists sched, let x := exec DoneCtx (init_st [7], [shutdown_prog]) sched in
+    all_done (snd x) /\ c_done (fst x) = true /\ c_ran (fst x) = [7] /\ c_cancelled (fst x) = false.
+Proof. exact run_exit_without_close_refuted. Qed.
+Print Assumptions C09_run_exit_without_close_refuted.
+
+(* ---------- Close while a write is stalled (blocking model, Liveness/Stall.v) ----------
+   Threads over actions that can BLOCK: Lock of net.Conn's write mutex, the socket's Write when the peer has stopped
+   reading (released only by closing the socket), the reader loop's Read (released by closing the socket or by the
+   peer).  For ARBITRARY thread programs in which every Lock is followed by socket writes and the Unlock, whose
+   net.Conn.Close is the library's (compare-and-swap, then the socket's Close, no lock), one of which is on its way
+   to that compare-and-swap (a Close call; the reader loop if the peer has closed) and one of which shuts the session
+   down; for every peer behaviour e and every schedule:
+   - never stuck: while some thread has something left to do, some thread can take a step;
+   - from the state reached, the system completes; and when every thread has returned (every Close call, every
+     writer, the reader loop) the socket is closed and Done is completed. *)
+Theorem C09_close_releases_stalled_write : forall e ts sched,
+  good_start e ts ->
+  let x := bexec e (b_init, ts) sched in
+  (~ ball_done (snd x) -> exists tid, can_run e x tid = true) /\
+  (exists ext, ball_done (snd (bexec e x ext))) /\
+  (ball_done (snd x) -> b_sock (fst x) = true /\ b_done (fst x) = true).
+Proof. exact close_releases_stalled_write. Qed.
+Print Assumptions C09_close_releases_stalled_write.
+
+(* every step taken costs at least one unit of a measure fixed by the programs (so at most [measure] steps are ever
+   taken: with the above, every fair schedule completes), and a thread that cannot run leaves the system unchanged *)
+Theorem C09_stall_steps_bounded : forall e x tid,
+  (can_run e x tid = true -> measure (snd (bstep e x tid)) < measure (snd x)) /\
+  (can_run e x tid = false -> bstep e x tid = x).
+Proof. intros e x tid. split; [apply step_measure|apply bstep_idle]. Qed.
+Print Assumptions C09_stall_steps_bounded.
+
+(* the library: any number of writers with any number of socket writes each, stalled or not; nclose concurrent
+   Close calls of a session that owns its socket and the reader loop; at least one Close call, or the peer closes *)
+Theorem C09_close_while_write_stalled : forall e ks nclose sched,
+  1 <= nclose \/ e_eof e = true ->
+  let x := bexec e (b_init, stall_sys CloseLib ks nclose) sched in
+  (~ ball_done (snd x) -> exists tid, can_run e x tid = true) /\
+  (exists ext, ball_done (snd (bexec e x ext))) /\
+  (ball_done (snd x) -> b_sock (fst x) = true /\ b_done (fst x) = true).
+Proof. exact close_while_write_stalled. Qed.
+Print Assumptions C09_close_while_write_stalled.
+
+(* that net.Conn.Close takes no lock is essential: with a Close that takes the write lock between the
+   compare-and-swap and the socket's Close, one stalled writer and one Close call reach a state in which the Close
+   call, the writer and the reader loop are parked for ever, the socket open and Done not completed *)
+Theorem C09_lock_before_close_deadlocks :
+  exists sched,
+    let e := mkEnv true false in
+    let x := bexec e (b_init, stall_sys CloseLocked [1] 1) sched in
+    (forall ext, bexec e x ext = x) /\ ~ ball_done (snd x) /\
+    b_sock (fst x) = false /\ b_done (fst x) = false /\
+    (forall tid, can_run e x tid = false).
+Proof. exact lock_before_close_deadlocks. Qed.
+Print Assumptions C09_lock_before_close_deadlocks.
+
+(* FINDING (known: class operation-blocked-in-stalled-write-ignores-context).  The first sentence of the property
+   is FALSE of the faithful model for an operation whose write is stalled: as long as no thread closes the socket
+   and the peer neither reads nor closes, a thread that still has a socket write ahead never gets past it -- whatever
+   else happens, in particular whatever happens to the context of the writer, which a blocked Write does not look
+   at.  General form, then the library's system with no Close call. *)
+Theorem C09_stalled_write_needs_close : forall e ts sched tid p,
+  e_stalled e = true -> e_eof e = false ->
+  Forall (fun q => noclose q = true) ts ->
+  nth_error ts tid = Some p -> In BWrite p ->
+  let x := bexec e (b_init, ts) sched in
+  b_sock (fst x) = false /\ exists p', nth_error (snd x) tid = Some p' /\ In BWrite p'.
+Proof. exact stalled_write_needs_close. Qed.
+Print Assumptions C09_stalled_write_needs_close.
+
+Theorem C09_stalled_write_returns_refuted :
+  exists e ks tid, forall sched,
+    let x := bexec e (b_init, stall_sys CloseLib ks 0) sched in
+    b_sock (fst x) = false /\ nth_error (snd x) tid <> Some [].
+Proof.
+  exists (mkEnv true false), [1], 0. intros sched.
+  destruct (stalled_write_hangs_without_close (mkEnv true false) [1] sched 0 0 eq_refl eq_refl eq_refl) as [Hs [p' [Hp Hin]]].
+  cbv zeta. split; [exact Hs|]. rewrite Hp. intro H. injection H as ->. contradiction.
+Qed.
+Print Assumptions C09_stalled_write_returns_refuted.
+
 (* the hypotheses are satisfiable by non-trivial instances *)
 (* all client-operation functions of the inventory, one after the other, as one operation *)
 Example C09_instance_request :
@@ -144,3 +248,14 @@ Example C09_instance_close :
   let x := exec DoneChan (init_st [1; 2; 3], session_threads true 3 1 [4]) [3; 0; 1; 3; 4; 2; 3; 0; 3; 1; 3; 2; 3; 3; 3] in
   all_done (snd x) /\ c_ran (fst x) <> [] /\ c_done (fst x) = true.
 Proof. vm_compute. repeat split; try discriminate. repeat constructor. Qed.
+
+(* three stalled writers, two Close calls, the reader loop: a schedule under which everything returns *)
+Example C09_instance_stall :
+  let e := mkEnv true false in
+  good_start e (stall_sys CloseLib [2; 1; 3] 2) /\
+  let x := bexec e (b_init, stall_sys CloseLib [2; 1; 3] 2) (rr 6 12) in
+  ball_done (snd x) /\ b_done (fst x) = true /\ b_sock_closes (fst x) = 1.
+Proof.
+  split; [apply stall_sys_good; left; repeat constructor|].
+  vm_compute. repeat split. repeat constructor.
+Qed.
